@@ -46,6 +46,15 @@ def gfactterm(src, vars_=VS):
     return ('f', 'd', tuple(args))
 
 
+def sharing_variant(src, t, vars_=VS):
+    """the same skeleton with every variable occurrence chosen afresh: d(Z,Z) <-> d(X,Y), d(N,f(N)) <-> d(M,f(K))"""
+    if t[0] == 'v':
+        return src.pick(vars_)
+    if t[0] == 'f':
+        return ('f', t[1], tuple(sharing_variant(src, a, vars_) for a in t[2]))
+    return t
+
+
 def guse(src, n):
     """a use of d/n with ground or variable arguments"""
     out = []
@@ -94,6 +103,9 @@ class C13(HistoryProp):
                 steps.append(call('call', ('v', 'G')))
             else:
                 steps.append(call(op, ft))
+            if src.n(3) == 1:
+                # a second fact with the same skeleton but another sharing pattern of its variables
+                steps.append(call(src.pick(['assertz', 'asserta']), sharing_variant(src, ft)))
             for _ in range(nb2):
                 a, b = gbind(src)
                 steps.append(call('=', a, b))
@@ -120,6 +132,8 @@ class C13(HistoryProp):
             ft = gfactterm(src)
             facts.append(ft)
             ops.append(['assertv', E, ft, src.n(3) != 2])
+            if src.n(3) == 1:
+                ops.append(['assertv', E, sharing_variant(src, ft), src.n(3) != 2])
             ops.append(['db', E])
             for _ in range(src.n(3)):
                 uid += 1
